@@ -311,11 +311,24 @@ inline J plan_c18(uint64_t verif_seed, uint64_t index, int tier) {
     plan.set("models", models);
 
     J ops = J::arr();
-    ops.push(knobs_op(re, 1, 4));
+    ops.push(knobs_op(re, source == 1 ? 2 : 1, 4));  // an open writer session occupies one handle itself
     const char* F0 = oas ? "/sim/f0.oas" : "/sim/f0.gds";
+    bool peer_oas_source = oas && ro.chance(0.35);
+    if (peer_oas_source) {
+        m = oasify(m);
+        models = J::arr();
+        models.push(model::to_json(m));
+        plan.set("models", models);
+    }
     auto make_save = [&](const char* file) {
         J s;
-        if (source == 3) {
+        if (source == 3 && peer_oas_source) {
+            s = op("peer_oas");
+            s.set("model", 0);
+            s.set("file", file);
+            Rng r2 = rc.fork(80);
+            s.set("choices", oaspeer::to_json(oaspeer::random_choices(r2)));
+        } else if (source == 3) {
             s = op("save_oas");
             s.set("model", 0);
             s.set("file", file);
@@ -361,6 +374,11 @@ inline J plan_c18(uint64_t verif_seed, uint64_t index, int tier) {
             J rd = op(readers[i]);
             rd.set("file", file);
             rd.set("repeat", pick_repeat(rsch));
+            if (i == 0 && !oas && rsch.chance(0.3)) {
+                static const double units[] = {1e-6, 1e-9, 1e-3};
+                rd.set("unit", units[rsch.below(3)]);
+                if (rsch.chance(0.5)) rd.set("tol", 1e-4);
+            }
             ops.push(rd);
         }
     };
@@ -396,7 +414,7 @@ inline J plan_c18(uint64_t verif_seed, uint64_t index, int tier) {
             add_readers(dst, 0.7);
         }
         // torn saves: the writer really dies / runs out of space at some device write
-        if (source != 2) {
+        if (source != 2 && !peer_oas_source) {
             int ntorn = (int)rf.range(1, tier == 0 ? 2 : 4);
             for (int i = 0; i < ntorn; i++) {
                 std::string dst = std::string("/sim/torn") + std::to_string(i) + (oas ? ".oas" : ".gds");
@@ -416,6 +434,38 @@ inline J plan_c18(uint64_t verif_seed, uint64_t index, int tier) {
                 ops.push(s);
                 add_readers(dst, 0.8);
             }
+        }
+        // a reader scheduled while an incremental writer session is still open sees the durable prefix only
+        if (source == 1 && rsch.chance(0.6)) {
+            set_clock();
+            J wo = op("writer_open");
+            wo.set("w", "S");
+            wo.set("file", "/sim/open.gds");
+            wo.set("model", 0);
+            wo.set("like_save", true);
+            wo.set("ref", F0);
+            {
+                Rng r2 = ro.fork(79);  // the same option draws as the complete save
+                wo.set("max_points", (int64_t)pick_max_points(r2));
+                wo.set("ts", random_ts(r2));
+            }
+            static const int64_t bufs[] = {0, 0, 1, 16, 256, 4096};
+            wo.set("buf", bufs[rsch.below(6)]);
+            ops.push(wo);
+            size_t ncell = m.cells.size();
+            size_t pause = rsch.below(ncell + 1);
+            for (size_t i = 0; i < ncell; i++) {
+                if (i == pause) add_readers("/sim/open.gds", 0.8);
+                J wc = op("writer_cell");
+                wc.set("w", "S");
+                wc.set("cell", (int64_t)i);
+                ops.push(wc);
+            }
+            if (pause == ncell) add_readers("/sim/open.gds", 0.8);
+            J wcl = op("writer_close");
+            wcl.set("w", "S");
+            ops.push(wcl);
+            add_readers("/sim/open.gds", 0.4);
         }
         // control: the complete file
         add_readers(F0, 0.6);
